@@ -84,6 +84,18 @@ func TestC16RepeatInterval(t *testing.T) {
 		if !p.WaitWrites(7, bound) {
 			t.Fatalf("%s: first ArduPilot heartbeat did not trigger seven requests", desc)
 		}
+		waitEvents := func(n int) {
+			r.WaitFor(bound, func(recs []sim.Rec) bool {
+				k := 0
+				for _, e := range recs {
+					if _, ok := e.Ev.(*gomavlib.EventStreamRequested); ok {
+						k++
+					}
+				}
+				return k >= n
+			})
+		}
+		waitEvents(1) // the event follows the requests; on a busy machine not within any fixed delay
 		time.Sleep(2 * time.Millisecond)
 		if w, e := counts(); w != 7 || e != 1 {
 			t.Fatalf("%s: first contact: %d requests, %d events", desc, w, e)
@@ -97,7 +109,11 @@ func TestC16RepeatInterval(t *testing.T) {
 		}
 		atomic.StoreInt64(&offset, int64(time.Duration(jump)*time.Millisecond))
 		hb()
-		p.WaitWrites(14, 100*time.Millisecond)
+		p.WaitWrites(8, 100*time.Millisecond)
+		if p.NumWrites() > 7 { // a second set has begun: let it complete before counting
+			p.WaitWrites(14, bound)
+			waitEvents(2)
+		}
 		time.Sleep(2 * time.Millisecond)
 		w1, e1 := counts()
 		if !((w1 == 7 && e1 == 1) || (w1 == 14 && e1 == 2)) {
